@@ -6,7 +6,8 @@ import EinoV.Expected.C11
   C11 oracle.  Case kinds
 
   {"k":"run", "init":{"ctr":[..],"seq":n},
-   "tasks":[{"in":"x","ops":[opspec…]}…],          -- one pipeline per node, program order
+   "tasks":[{"in":"x","ops":[opspec…],"cut":[i…]}…], -- one pipeline per node, program order;
+                                                    --   cut: positions of the value chain to report
    "order":[tid…],                                  -- commit order of the state operations
                                                     --   as logged by the implementation
    "resume":{"mod":{"c":i,"d":n}|null,"order":[tid…]} | absent,
@@ -97,16 +98,32 @@ def randSched : Nat → Nat → Nat → List Nat
   | 0, _, _ => []
   | k + 1, x, n => let x' := lcg x; ((x' / 8589934592) % n) :: randSched k x' n
 
+/-- round-robin sweeps (every thread gets one micro-step per sweep) until all pipelines are
+    finished; the schedule executed is the concatenation of the sweeps -/
+def sweeps : Nat → Nat → Sys St V → Sys St V
+  | 0, _, sys => sys
+  | fuel + 1, n, sys =>
+    if allDone sys.core && sys.holder.isNone then sys
+    else
+      -- threads that can still move: something left to run, or the mutex still to release
+      let live := (List.range n).filter fun t =>
+        !(pending sys.core t).isEmpty || sys.holder == some t
+      sweeps fuel n (run Expected.C11.locks.of noGuard live sys)
+
 def microRun (seed : Nat) (s0 : St) (ths : List (List (Op St V) × V)) : Sys St V :=
   let n := ths.length
   let ops := (ths.map (·.1.length)).foldl (· + ·) 0
-  let sched := randSched (6 * ops) seed (max n 1) ++
-    (List.replicate (4 * ops + 4) (List.range n)).flatten
-  run Expected.C11.locks.of noGuard sched (init s0 ths)
+  let sys := run Expected.C11.locks.of noGuard (randSched (3 * ops) seed (max n 1)) (init s0 ths)
+  sweeps (4 * ops + 4) n sys
 
-def valsOf (c : Core St V) (inputs : List V) (logs : List (Ev St V)) : Json :=
+/-- per task: the value chain input, after op 1, after op 2, … restricted to the positions
+    the harness asks for (`cut`, e.g. after the pre-handler, after the body, at the end) -/
+def valsOf (c : Core St V) (inputs : List V) (cuts : List (List Nat)) (logs : List (Ev St V)) : Json :=
   J.mkArr ((List.range c.threads.length).map fun t =>
-    J.mkStrs (inputs.getD t "" :: (evsOf t logs).map (·.vout)))
+    let chain := inputs.getD t "" :: (evsOf t logs).map (·.vout)
+    match cuts[t]? with
+    | some (cut@(_ :: _)) => J.mkStrs (cut.map fun i => chain.getD i "<not-reached>")
+    | _ => J.mkStrs chain)
 
 def handleRun (c : Json) : JE Json := do
   let s0 ← parseSt (← J.field c "init")
@@ -115,6 +132,8 @@ def handleRun (c : Json) : JE Json := do
   let c0 : Core St V := ⟨s0, ths, []⟩
   let (c1, ok1) := follow order c0
   let inputs := ths.map (·.2)
+  let cuts := (J.arrD c "tasks").map fun tj =>
+    (J.arrD tj "cut").filterMap fun x => x.getNat?.toOption
   -- the micro-step run knows no interrupt: the (commuting) modifier is applied at its end
   let microJ (modifier : Option (St → St)) : Json :=
     match (J.fieldD c "micro" Json.null).getNat? with
@@ -128,7 +147,7 @@ def handleRun (c : Json) : JE Json := do
   | .null =>
     pure <| Json.mkObj [
       ("conforms", Json.bool ok1), ("ctr", J.mkNats c1.shared.ctr), ("seq", (c1.shared.seq : Json)),
-      ("vals", valsOf c1 inputs c1.log), ("remaining", J.mkNats (c1.threads.map (·.1.length))),
+      ("vals", valsOf c1 inputs cuts c1.log), ("remaining", J.mkNats (c1.threads.map (·.1.length))),
       ("atInt", Json.null), ("micro", microJ none)]
   | r =>
     let modifier : Option (St → St) ←
@@ -147,7 +166,7 @@ def handleRun (c : Json) : JE Json := do
       pure <| Json.mkObj [
         ("conforms", Json.bool (ok1 && ok2)), ("ctr", J.mkNats c3.shared.ctr),
         ("seq", (c3.shared.seq : Json)),
-        ("vals", valsOf c3 inputs (c1.log ++ c3.log)),
+        ("vals", valsOf c3 inputs cuts (c1.log ++ c3.log)),
         ("remaining", J.mkNats (c3.threads.map (·.1.length))),
         ("atInt", stJson c1.shared), ("micro", microJ modifier)]
 
